@@ -1,7 +1,7 @@
 (** C09 correspondence: histories of real msg-server / keeper calls and real consensus end-blocks,
     with what the implementation answered at every step; [check] re-runs Sys/EndBlock on them. *)
 From Coq Require Import List ZArith Bool.
-From Paloma Require Import Base.Corr Base.Dec Sys.EndBlock Sys.EndBlockAttest Sys.EndBlockMods.
+From Paloma Require Import Base.Corr Base.Dec Gen.C09 Sys.EndBlock Sys.EndBlockAttest Sys.EndBlockMods.
 Import ListNotations.
 Open Scope Z_scope.
 
@@ -39,6 +39,8 @@ Inductive case :=
 | CAttest (ops : list xop)
 | CSkyway (chains : Z) (ops : list yop)
 | CWorthy (cur new : list Z) (tcur tnew : Z) (res : Z)  (* isNewSnapshotWorthy on equal-order snapshots: 0 not worthy / 1 worthy / 2 panic *)
+| CGovBlocks (hostile_weights_accepted : bool) (outcomes : list Z) (* end-blocks on a governance-configured state; the flag: the
+                                                                     RelayWeightsProposal handler stored un-rankable weights for the active chain *)
 | CGate (running : option semver) (required : option (option semver)) (outcome : Z). (* the real paloma BeginBlock: 0 completed / 2 panic *)
 
 Definition fees_eqb (a b : option (Z * Z * Z)) : bool :=
@@ -158,5 +160,10 @@ Definition check (c : case) : bool :=
     | WOk true => res =? 1
     | WDivByZero => res =? 2
     end
+  | CGovBlocks hostile outcomes =>
+    (* a tree that validates relay weights never stores hostile ones, and then every block completes;
+       a tree that does not (known finding until fix f8776774 is merged) may overflow while ranking *)
+    if Gen.C09.relay_weights_validated_when_set then negb hostile && forallb (fun x => x =? 0) outcomes
+    else if hostile then forallb (fun x => (x =? 0) || (x =? 2)) outcomes else forallb (fun x => x =? 0) outcomes
   | CGate running required outcome => if gate_open running required then outcome =? 0 else outcome =? 2
   end.
